@@ -9,6 +9,7 @@
               with a list, tuple of those), entries in every item-grader format, with the canonical form
      lgroup   ListGrader: ordered x subgraders x grouping x number of answers x tuple-of-lists
      nested   chains of nested SingleListGraders over three delimiters
+     interval IntervalGrader answers: string / list form x brackets x number of bounds x configured brackets
      square   SquareMatrices: symmetry x traceless x determinant x complex x dimension *)
 EXTENDS ConfigSchema
 CONSTANTS Part, Big          \* Big: TRUE in the thorough tier (larger bounds)
@@ -122,6 +123,12 @@ SquareSyms == {"none", "diagonal", "symmetric", "antisymmetric", "hermitian", "a
 SquareSpace(sym) == [kind : {"square"}, symmetry : {sym}, traceless : BOOLEAN, determinant : {"none", "zero", "one"},
                      complex : BOOLEAN, dimension : IF Big THEN 2..5 ELSE 2..3]
 
+(* ---------------------------------------------------------------------- interval *)
+IntervalCases(form) ==
+  [kind : {"interval"}, form : {form}, open : {"lsq", "lpar", "lcub", "rsq"} \cup (IF form = "list" THEN {"two"} ELSE {}),
+   close : {"rsq", "rpar", "rcub", "lpar"} \cup (IF form = "list" THEN {"two"} ELSE {}), nbounds : 1..3, curly : BOOLEAN,
+   wrap : {"bare", "tuple", "dict"}]
+
 (* ---------------------------------------------------------------------- two-level enumeration *)
 Seeds ==
   CASE Part = "single" -> {[kind |-> "seed", cls |-> cls] : cls \in Classes}
@@ -132,6 +139,7 @@ Seeds ==
     [] Part = "lgroup" -> {[kind |-> "seed", ordered |-> o, subs |-> s] : o \in BOOLEAN, s \in SubsOne \cup SubsMany}
     [] Part = "nested" -> {[kind |-> "seed", n |-> n] : n \in 1..(IF Big THEN 4 ELSE 3)}
     [] Part = "square" -> {[kind |-> "seed", symmetry |-> s] : s \in SquareSyms}
+    [] Part = "interval" -> {[kind |-> "seed", form |-> f] : f \in {"string", "list"}}
 Init == c \in Seeds /\ out = "seed"
 Next ==
   /\ c.kind = "seed"
@@ -150,6 +158,8 @@ Next ==
                              /\ out' = [expect |-> NestedExpect(c'.chain)]
        [] Part = "square" -> /\ c' \in SquareSpace(c.symmetry)
                              /\ out' = [expect |-> SquareExpect(c')]
+       [] Part = "interval" -> /\ c' \in IntervalCases(c.form)
+                               /\ out' = [expect |-> IntervalExpect(c')]
 
 (* ---------------------------------------------------------------------- laws *)
 \* table laws: evaluated once per class in the seed states of part "single"
@@ -162,6 +172,14 @@ LawTablesBase == TableSeed =>
   /\ Undocumented(c.cls) \cap DOMAIN Options[c.cls] = {}
   /\ DOMAIN Base[c.cls] \subseteq DOMAIN Options[c.cls]
 LawTablesUnknown == TableSeed => \A k \in {"int_one", "str", "none", "list_empty"} : LawUnknownRefused(c.cls, k)
+\* documented inheritance: the options common to all graders are judged alike in every grader class; whatever NumericalGrader
+\* accepts FormulaGrader accepts ("as per FormulaGrader, except ..." only narrows); MatrixGrader accepts what FormulaGrader accepts
+LawTablesInherit == (TableSeed /\ c.cls \in GraderClasses) =>
+  \A opt \in DOMAIN AbstractGraderOpts : \A k \in Kinds : Verdict(c.cls, opt, k) = Verdict("StringGrader", opt, k)
+LawNumericalRefines == (IsCase /\ c.kind \in {"single", "base"} /\ c.cls = "NumericalGrader" /\ out.expect = "accept") =>
+  Expect("FormulaGrader", SingleCfg(c)) = "accept"
+LawMatrixExtends == (IsCase /\ c.kind \in {"single", "base"} /\ c.cls = "FormulaGrader" /\ out.expect = "accept" /\ c.opt # "allow_inf") =>
+  Expect("MatrixGrader", SingleCfg(c)) = "accept"
 LawExpectDomain == IsCase => out.expect \in {"accept", "reject", "skip"}
 \* single deviations: the verdict of the deviating value decides, except where a cross-option rule speaks
 LawSingleVerdict == (IsCase /\ c.kind = "single" /\ c.val # "ABSENT") =>
@@ -221,5 +239,8 @@ LawNestedPrefix == (IsCase /\ c.kind = "nested" /\ out.expect = "accept" /\ Len(
 \* square: hermitian symmetry makes the complex flag irrelevant; no symmetry and no determinant is always accepted
 LawSquareHermitian == (IsCase /\ c.kind = "square" /\ c.symmetry \in {"hermitian", "antihermitian"}) =>
   SquareExpect([c EXCEPT !.complex = ~c.complex]) = out.expect
+\* interval: enabling the curly brackets never turns an accepted answer into a refused one
+LawIntervalCurly == (IsCase /\ c.kind = "interval" /\ out.expect = "accept" /\ ~c.curly) =>
+  IntervalExpect([c EXCEPT !.curly = TRUE]) = "accept"
 LawSquarePlain == (IsCase /\ c.kind = "square" /\ c.determinant = "none") => out.expect = "accept"
 =============================================================================
